@@ -384,6 +384,7 @@ type expander struct {
 	pure        map[*helper]bool
 	unstable    map[*types.Var]bool
 	unstableFor *ast.FuncDecl
+	instSig     map[*ast.CallExpr]*types.Signature
 }
 
 func (x *expander) fresh(base string) string {
@@ -558,11 +559,24 @@ func (x *expander) calleeOf(call *ast.CallExpr) (*helper, ast.Expr, *types.Selec
 					if !has || inst.TypeArgs.Len() != tps.Len() {
 						return nil, nil, nil
 					}
+					sameParams := true
 					for i := 0; i < tps.Len(); i++ {
 						tp, isTP := inst.TypeArgs.At(i).(*types.TypeParam)
 						if !isTP || tp.Obj().Name() != tps.At(i).Obj().Name() {
+							sameParams = false
+						}
+					}
+					if !sameParams {
+						// concrete instantiation: fine when the body never spells a type parameter (the parameters and
+						// results are then declared with the instantiated types)
+						isig, isSig := inst.Type.(*types.Signature)
+						if !isSig || x.bodyNamesTypeParams(h) {
 							return nil, nil, nil
 						}
+						if x.instSig == nil {
+							x.instSig = map[*ast.CallExpr]*types.Signature{}
+						}
+						x.instSig[call] = isig
 					}
 				}
 				return h, nil, nil
@@ -596,6 +610,22 @@ func (x *expander) calleeOf(call *ast.CallExpr) (*helper, ast.Expr, *types.Selec
 		}
 	}
 	return nil, nil, nil
+}
+
+// bodyNamesTypeParams: does the helper's body mention one of its type parameters?
+func (x *expander) bodyNamesTypeParams(h *helper) bool {
+	found := false
+	ast.Inspect(h.decl.Body, func(n ast.Node) bool {
+		if id, ok := n.(*ast.Ident); ok {
+			if tn, isTN := h.pkg.TypesInfo.Uses[id].(*types.TypeName); isTN {
+				if _, isTP := tn.Type().(*types.TypeParam); isTP {
+					found = true
+				}
+			}
+		}
+		return !found
+	})
+	return found
 }
 
 func (x *expander) text(n ast.Node) string {
@@ -787,6 +817,9 @@ func shortPath(p string) string {
 // expand builds the prelude text for one call.
 func (x *expander) expand(h *helper, call *ast.CallExpr, recvExpr ast.Expr, sel *types.Selection, tail bool) (body string, resNames []string, prelude string, ok bool) {
 	sig := h.fn.Type().(*types.Signature)
+	if is := x.instSig[call]; is != nil {
+		sig = is // a generic helper instantiated with concrete types whose body never names its type parameters
+	}
 	hinfo := h.pkg.TypesInfo
 	hoff := func(p token.Pos) int { return x.fset.PositionFor(p, false).Offset }
 	rename := map[types.Object]string{}
